@@ -40,15 +40,14 @@ type failure struct {
 
 // answer is what pd returned for one probe.
 type answer struct {
-	Regs   []*core.RegionInfo
-	Nums   []int64
-	Start  hexkey // resolved range of an id-based probe
-	End    hexkey
-	Skip   bool   // probe not issued (inverted range, id not cached)
-	Err    string // error text (precheck)
-	Panic  string
-	Stack  string
-	Serial bool // fetched while nothing else was running (extra pd calls without the cluster lock allowed)
+	Regs  []*core.RegionInfo
+	Nums  []int64
+	Start hexkey // resolved range of an id-based probe
+	End   hexkey
+	Skip  bool   // probe not issued (inverted range, id not cached)
+	Err   string // error text (precheck)
+	Panic string
+	Stack string
 }
 
 type counter map[string]int64
@@ -60,8 +59,85 @@ func (c counter) add(k string, n int64) {
 }
 
 type held struct {
-	info  *core.RegionInfo
-	canon string
+	info *core.RegionInfo
+	spec *regionSpec
+	sig  uint64
+}
+
+// sigInfo / sigSpec: cheap order-independent signatures of the same content canonInfo / canonSpec
+// spell out (the strings are only built for witnesses).
+func mix(h, x uint64) uint64 {
+	h ^= x + 0x9e3779b97f4a7c15 + (h << 6) + (h >> 2)
+	return h * 0x100000001b3
+}
+
+func sigBytes(h uint64, b string) uint64 {
+	for i := 0; i < len(b); i++ {
+		h = (h ^ uint64(b[i])) * 0x100000001b3
+	}
+	return mix(h, uint64(len(b)))
+}
+
+func sigPeer(tag, id, store uint64) uint64 { return mix(mix(mix(0xcbf29ce484222325, tag), id), store) }
+
+func sigInfo(r *core.RegionInfo) uint64 {
+	h := mix(0xcbf29ce484222325, r.GetID())
+	h = sigBytes(h, string(r.GetStartKey()))
+	h = sigBytes(h, string(r.GetEndKey()))
+	h = mix(h, uint64(r.GetApproximateSize()))
+	var sum uint64
+	for _, p := range r.GetPeers() {
+		tag := uint64(1)
+		if p.GetRole() == metapb.PeerRole_Learner {
+			tag = 7
+		}
+		sum += sigPeer(tag, p.GetId(), p.GetStoreId())
+	}
+	for _, p := range r.GetVoters() {
+		sum += sigPeer(2, p.GetId(), p.GetStoreId())
+	}
+	for _, p := range r.GetLearners() {
+		sum += sigPeer(3, p.GetId(), p.GetStoreId())
+	}
+	for _, p := range r.GetPendingPeers() {
+		sum += sigPeer(4, p.GetId(), p.GetStoreId())
+	}
+	for _, p := range r.GetDownPeers() {
+		sum += sigPeer(5, p.GetPeer().GetId(), p.GetPeer().GetStoreId())
+	}
+	if l := r.GetLeader(); l != nil {
+		sum += sigPeer(6, l.GetId(), l.GetStoreId())
+	}
+	return mix(h, sum)
+}
+
+func sigSpec(sp *regionSpec) uint64 {
+	h := mix(0xcbf29ce484222325, sp.ID)
+	h = sigBytes(h, string(sp.Start))
+	h = sigBytes(h, string(sp.End))
+	h = mix(h, uint64(sp.Size))
+	var sum uint64
+	for _, p := range sp.Peers {
+		if p.Learner {
+			sum += sigPeer(7, p.ID, p.Store) + sigPeer(3, p.ID, p.Store)
+		} else {
+			sum += sigPeer(1, p.ID, p.Store) + sigPeer(2, p.ID, p.Store)
+		}
+	}
+	for _, id := range sp.Pending {
+		if p := sp.peer(id); p != nil {
+			sum += sigPeer(4, p.ID, p.Store)
+		}
+	}
+	for _, id := range sp.Down {
+		if p := sp.peer(id); p != nil {
+			sum += sigPeer(5, p.ID, p.Store)
+		}
+	}
+	if p := sp.peer(sp.Leader); p != nil {
+		sum += sigPeer(6, p.ID, p.Store)
+	}
+	return mix(h, sum)
 }
 
 // world = pd objects under test + the model + observation counters.
@@ -348,7 +424,7 @@ func inverted(s, e hexkey) bool { return e != "" && s >= e }
 // fetch asks pd. It touches neither the model nor any counter, so readers may call it while a
 // writer goroutine is active (w.conc set): everything then goes through BasicCluster's own locking.
 func (w *world) fetch(p *probe) (a *answer) {
-	a = &answer{Serial: !w.conc}
+	a = &answer{}
 	defer func() {
 		if x := recover(); x != nil {
 			a.Panic, a.Stack = fmt.Sprint(x), tailStack()
@@ -725,16 +801,16 @@ func (w *world) eval(p *probe) *failure {
 			if p.ID != 0 && e.spec.ID != p.ID {
 				continue
 			}
-			if g, x := canonInfo(e.info), canonSpec(e.spec); g != x {
-				return fail("cached-region-object-changed", fmt.Sprintf("the cached object of region %d no longer says what was put", e.spec.ID), g, x)
+			if sigInfo(e.info) != sigSpec(e.spec) {
+				return fail("cached-region-object-changed", fmt.Sprintf("the cached object of region %d no longer says what was put", e.spec.ID), canonInfo(e.info), canonSpec(e.spec))
 			}
 		}
-		for _, h := range w.held {
-			if h.info == nil {
-				continue
+		for i, h := range w.held {
+			if h.info == nil || (p.ID != 0 && i%12 != int(w.probes["content"])%12) {
+				continue // per operation: a rotating twelfth of the objects; in sweeps: all
 			}
-			if g := canonInfo(h.info); g != h.canon {
-				return fail("returned-region-object-changed", "a region object obtained earlier from the cache was modified afterwards (regions are read-only once created)", g, h.canon)
+			if sigInfo(h.info) != h.sig {
+				return fail("returned-region-object-changed", "a region object obtained earlier from the cache was modified afterwards (regions are read-only once created)", canonInfo(h.info), canonSpec(h.spec))
 			}
 		}
 		w.cnt.add("content_checks", 1)
@@ -745,11 +821,11 @@ func (w *world) eval(p *probe) *failure {
 	return j.judge(p, w.fetch(p))
 }
 
-func (w *world) hold(info *core.RegionInfo) {
-	if info == nil {
+func (w *world) hold(e *entry) {
+	if e == nil || e.info == nil {
 		return
 	}
-	h := held{info: info, canon: canonInfo(info)}
+	h := held{info: e.info, spec: e.spec, sig: sigSpec(e.spec)}
 	if len(w.held) < 48 {
 		w.held = append(w.held, h)
 		return
